@@ -565,6 +565,13 @@ def interpolate_ntv2(grid_object, lat, lon, method='bicubic'):
     row = int((lat - in_grid.s_lat) / in_grid.lat_inc)
     col = int((lon - in_grid.e_long) / in_grid.long_inc)
 
+    # The 4 x 4 bicubic stencil needs one more node on every side of the cell. In the outermost
+    # ring of cells it does not fit inside the sub-grid (the reads would land in neighbouring rows,
+    # the headers or the next sub-grid), so bilinear interpolation is used there
+    num_rows = 1 + int(round((in_grid.n_lat - in_grid.s_lat) / in_grid.lat_inc))
+    if method == 'bicubic' and not (1 <= row <= num_rows - 3 and 1 <= col <= num_cols - 3):
+        method = 'bilinear'
+
     # locate data in gsb_file
     skip_bytes = 176    # grid header length
 
